@@ -319,5 +319,8 @@ func workerDetlog(t *testing.T) {
 		plan := genPlan(ck, base, idx, tier)
 		out, vs, _ := execPlan(t, ck, plan)
 		fmt.Printf("DET %s %d %s %d %d %d\n", ck.ID, idx, out.Hash, out.Steps, len(out.Trace), len(vs))
+		if f := os.Getenv("VERIF_SCHEDLOG"); f != "" {
+			os.WriteFile(fmt.Sprintf("%s.%d", f, idx), []byte(strings.Join(out.SchedLog, "\n")+"\n"), 0o644)
+		}
 	}
 }
